@@ -240,6 +240,10 @@ func (v *VM) VerifGlobalNames() []string {
 	return append([]string(nil), v.globals.indexToKey...)
 }
 
+// VerifUntypedInt is the value of an untyped integer constant (what PUSH leaves on the stack): stores convert it to the
+// type of the place it is stored in.
+func VerifUntypedInt(n int) Value { return newUntypedInt(n) }
+
 // VerifIntMap wraps the unexported robin-hood table for model-based checking.
 type VerifIntMap struct{ m intMap }
 
